@@ -285,8 +285,12 @@ class LinCombDomain(RadiiDomain):
     name = 'Lc'
     inline = set()
 
-    def __init__(self, repo, scalar_facts=True):
+    def __init__(self, repo, scalar_facts=True, h_symmetric=False, abstract_at_sumsq=True, loop_defs=None, transfer_dots=False):
         RadiiDomain.__init__(self, repo)
+        self.h_symmetric = h_symmetric              # H == H.T (asserted on entry of trsbox): x.(H y) == (H x).y, used to put dot products into one canonical form
+        self.abstract_at_sumsq = abstract_at_sumsq  # forget the composition of a vector once its norm has been taken (keeps the norm proofs small)
+        self.loop_defs = dict(loop_defs or {})      # (function, loop label) -> [(name, expression)]: an invariant of the form  name == expression, PROVED IN ANOTHER BUNDLE, used here as a definition at the loop head
+        self.transfer_dots = transfer_dots          # when a vector is abstracted to one atom, keep its dot products with the other live vectors (definitional equations)
         self.scalar_facts = scalar_facts      # False: dot products and square roots are unconstrained reals (enough for the linear identities, keeps the queries linear in PHI)
         self.field_shapes = {}
         self.assumptions = [
@@ -314,6 +318,20 @@ class LinCombDomain(RadiiDomain):
         SHRINK.clear()
         ANC.clear()
 
+    def at_break(self, eng, loop, st, line, frame):
+        """contract key 'break@<loop label>': clauses obliged at every break of that loop (the state that leaves the loop there)"""
+        con = frame.contract
+        if con is None or len(eng.frames) != 1:
+            return
+        ordinal = frame.loop_ord.get(id(loop), '?')
+        key = 'break@%s' % ordinal
+        if key in con.asserts:
+            brks = sorted(own_breaks(loop), key=lambda n: n.lineno)
+            k = [n.lineno for n in brks].index(line) + 1 if line in [n.lineno for n in brks] else 0
+            for c in con.asserts[key]:
+                v = eng.eval_clause(c, st, frame.old)
+                eng.oblige(st, v, 'assert', c.label, c.tags, line, site='%s.break#%d' % (ordinal, k))
+
     def fact(self, st, f):
         """a definitional fact about fresh symbols / uninterpreted functions: true on every path, so it is a global hypothesis of the obligations rather than part of a path condition"""
         self.global_facts.append(f)
@@ -323,6 +341,12 @@ class LinCombDomain(RadiiDomain):
         for nm, v in entry.env.items():
             if isinstance(v, XB) and nm in assigned_names(loop.body) and assign_then_break(loop.body, nm):
                 h.env[nm] = v
+        if self.loop_defs and len(eng.frames) == 1:
+            lab = frame.loop_ord.get(id(loop), '?')
+            for nm, ex in self.loop_defs.get((frame.qual, lab), []):
+                val = eng.eval_clause(Clause(ex), h, frame.old)
+                if isinstance(val, LC):
+                    h.env[nm] = val
 
     def fresh(self, shape, name, st=None):
         if shape == 'lc':
@@ -379,6 +403,32 @@ class LinCombDomain(RadiiDomain):
 
     # ------------------------------------------------------------------ dot products
     def dot_atoms(self, a, b, st):
+        c = self.dot_atoms0(a, b, st)
+        if not self.h_symmetric:
+            return c
+        # H symmetric: x.(H y) == (H x).y; masking symmetric: (R x).y == x.(R y).  All one-move equivalents are formed and the smallest (as text) is the canonical atom.
+        cands = [c]
+        isH = lambda t: z3.is_app(t) and t.decl().eq(HAT)
+        isR = lambda t: z3.is_app(t) and t.decl().eq(RAT)
+        m, a0, b0 = None, a, b
+        if isR(a):
+            m, a0 = a.arg(0), a.arg(1)
+            s_ = strip(m, b)
+            b0 = s_ if s_ is not None else b
+        elif isR(b):
+            m, b0 = b.arg(0), b.arg(1)
+        if m is None:
+            if isH(b):
+                cands.append(self.dot_atoms0(HAT(a), b.arg(0), st))
+            if isH(a):
+                cands.append(self.dot_atoms0(a.arg(0), HAT(b), st))
+        else:
+            for x, y in ((a0, b0), (b0, a0)):          # the quantity is (R x).y == x.(R y)
+                if isH(y):                              # (R x).(H y1) == (H R x).y1
+                    cands.append(self.dot_atoms0(HAT(RAT(m, x)), y.arg(0), st))
+        return min(cands, key=lambda t: t.sexpr())
+
+    def dot_atoms0(self, a, b, st):
         m, a0, b0 = None, a, b
         if z3.is_app(a) and a.decl().eq(RAT):
             m, a0 = a.arg(0), a.arg(1)
@@ -425,14 +475,23 @@ class LinCombDomain(RadiiDomain):
         if not args:
             return UNK
         v = args[0]
-        if self.scalar_facts and not eng.in_spec and isinstance(v, LC) and len(v.terms) > 1 and len(node.args) == 1 and isinstance(node.args[0], ast.Name):
+        if self.scalar_facts and self.abstract_at_sumsq and not eng.in_spec and isinstance(v, LC) and len(v.terms) > 1 and len(node.args) == 1 and isinstance(node.args[0], ast.Name):
             # abstraction: from here on the vector is ONE atom (its composition out of earlier vectors is forgotten); if every atom was masked by the same mask, so is the new one
             toks = [a.arg(0) if (z3.is_app(a) and a.decl().eq(RAT)) else None for a, c in v.terms.values()]
             new = z3.Const(fresh_name(node.args[0].id), AT)
             if toks[0] is not None and all(t is not None and z3.eq(t, toks[0]) for t in toks):
                 new = RAT(toks[0], new)
-            v = LC.atom(new)
+            old_v, v = v, LC.atom(new)
             st.env[node.args[0].id] = v
+            if self.transfer_dots:
+                # the new atom IS the old vector: its dot products with the live vectors (and with itself) are those of the old composition
+                self.fact(st, self.dot(v, v, st) == self.dot(old_v, old_v, st))
+                for nm, w in sorted(st.env.items()):
+                    if isinstance(w, LC) and nm != node.args[0].id and w.terms:
+                        self.fact(st, self.dot(v, w, st) == self.dot(old_v, w, st))
+                        if isinstance(st.env.get('xbdi'), XB):
+                            mw = MV(w, st.env['xbdi'].tok, 'free')
+                            self.fact(st, self.dot(MV(v, mw.tok, 'free'), mw, st) == self.dot(MV(old_v, mw.tok, 'free'), mw, st))
         return self.dot(v, v, st)
 
     def b_dot(self, eng, node, args, kw, st):
